@@ -75,7 +75,7 @@ def _case(draw, tier):
         extra["int_dtype"] = draw(st.sampled_from(["int32", "int64"]))
         extra["opened_before"] = draw(st.booleans())
     else:
-        mesh = draw(meshgen.any_mesh(max_pts=40 if big else 20))
+        mesh = draw(meshgen.any_mesh(max_pts=40 if big else 20, orphans=True))
         if kind == "subdiv":
             mesh = meshgen.subdivide_edges(draw, mesh)
     c = {"mesh": mesh, "access": draw(st.permutations([0, 1, 2, 3, 4, 5])), "source": source}
